@@ -36,9 +36,15 @@ _SEEKPOS = ("std::io::Seek::stream_position", "futures_util::io::AsyncSeekExt::s
 def dir_writer_fns(facts):
     """the functions that serialise a directory: associated functions of Directory that emit varints, and those of its functions that call them
     (the public `to_writer` in front of a private serialiser, whatever that one is called and whether it takes `&self` or the entry slice)"""
-    fns = {f["path"]: f for f in facts.user_fns() if "directory::Directory" in (f.get("self_ty") or "")}
+    def over_entries(f):
+        return "directory::Directory" in (f.get("self_ty") or "") or any("[directory::Entry]" in (p.get("ty") or "") for p in f["params"])
+    fns = {f["path"]: f for f in facts.user_fns() if over_entries(f)}
     direct = {p: set(c["fn"] for c in calls(f["body"])) for p, f in fns.items()}
     W = set(p for p, cs in direct.items() if any(c.endswith(("VarIntWriter::write_varint", "VarIntAsyncWriter::write_varint_async")) for c in cs))
+    # (a function over the entry slice that merely *calls* a serialiser — the root writers do — is not one itself: only Directory's own
+    #  functions are added by the closure below)
+    fns = {p: f for p, f in fns.items() if p in W or "directory::Directory" in (f.get("self_ty") or "")}
+    direct = {p: direct[p] for p in fns}
     changed = True
     while changed:
         changed = False
